@@ -134,6 +134,9 @@ def language(ck, tier, seed):
     for p in progs:
         c, cv, o = cases[p["id"]], casesV[p["id"]], obs[p["id"]]
         tag = "/".join(p["tags"][1:3]) if p["tags"][-1] != "random" else "random"
+        if o.get("skipped"):
+            ck.cov["not_run_unbounded_growth"] = ck.cov.get("not_run_unbounded_growth", 0) + 1
+            continue
         if "parse" in o:
             ck.mismatch("language/parse/" + tag, {"src": c["src"], "what": o["parse"]})
             continue
